@@ -129,19 +129,26 @@ fn generate(rng: &mut Rng, n: usize, _tier: &str, out: &mut dyn Write) {
             emit!("index");
         }
         let mut edge_no = 0u32;
-        let mut new_edge = |rng: &mut Rng| -> (u32, u32) {
-            // distinct edges, so that every compaction sees a new one
+        // distinct edges (k < total²): every compaction must see a new one — a segment without edges
+        // panics on incoming scans (C05's finding), which is not what this stream is about
+        let mut new_edge = |_rng: &mut Rng| -> Option<(u32, u32)> {
+            if edge_no >= total * total {
+                return None;
+            }
             let a = edge_no % total;
-            let b = (edge_no / total + 1 + rng.below(2) as u32 * 0) % total;
+            let b = (a + 1 + edge_no / total) % total;
             edge_no += 1;
-            (a, (a + b) % total)
+            Some((a, b))
         };
         let rounds = compactions.max(1);
         for r in 0..rounds {
             let k = 1 + rng.below(6);
+            let mut fresh = 0;
             for _ in 0..k {
-                let (a, b) = new_edge(rng);
-                emit!("edge {} {}", a, b);
+                if let Some((a, b)) = new_edge(rng) {
+                    emit!("edge {} {}", a, b);
+                    fresh += 1;
+                }
             }
             if with_props {
                 for _ in 0..1 + rng.below(4) {
@@ -151,7 +158,7 @@ fn generate(rng: &mut Rng, n: usize, _tier: &str, out: &mut dyn Write) {
             if with_vec && (r == 0 || rng.chance(1, 2)) {
                 emit!("vec {}", rng.below(total as u64));
             }
-            if r < compactions {
+            if r < compactions && fresh > 0 {
                 emit!("compact");
             }
         }
@@ -164,12 +171,14 @@ fn generate(rng: &mut Rng, n: usize, _tier: &str, out: &mut dyn Write) {
         emit!("dump");
         emit!("reach");
         // the vacuumed database is fully usable: write, reopen, read
-        let (a, b) = new_edge(rng);
-        emit!("edge {} {}", a, b);
+        let extra = new_edge(rng);
+        if let Some((a, b)) = extra {
+            emit!("edge {} {}", a, b);
+        }
         if with_props {
             emit!("prop {} {}", rng.below(total as u64), rng.range(-9, 9));
         }
-        if rng.chance(1, 2) {
+        if extra.is_some() && rng.chance(1, 2) {
             emit!("compact");
         }
         emit!("reopen");
